@@ -1532,11 +1532,15 @@ def run(ctx):
             except Exception as ex:   # noqa
                 ctx.problem('harness', 'race case %s (v%d) could not be run: %r' % (variant, version, ex), None)
 
+    # the four comparisons are independent: evaluate them side by side (each one runs its shards in parallel)
+    from concurrent.futures import ThreadPoolExecutor
+    jobs = []
     for version in (1, 2):
-        ctx.corr_check('v%d_sparse_history_defrag' % version, 'Bytes Gen_compact Gen_compact_fmt Bundle',
-                       'v%d_scase' % version, terms[(version, 's')], 'v%d_scase_ok' % version,
-                       (lambda v: (lambda i: descr[(v, 's')][i]))(version), shard=5)
-    for version in (1, 2):
-        ctx.corr_check('v%d_history_defrag' % version, 'Bytes Gen_compact Bundle', 'v%d_case' % version,
-                       terms[version], 'v%d_case_ok' % version,
-                       (lambda v: (lambda i: descr[v][i]))(version), shard=5)
+        jobs.append(('v%d_sparse_history_defrag' % version, 'Bytes Gen_compact Gen_compact_fmt Bundle',
+                     'v%d_scase' % version, terms[(version, 's')], 'v%d_scase_ok' % version,
+                     (lambda v: (lambda i: descr[(v, 's')][i]))(version)))
+        jobs.append(('v%d_history_defrag' % version, 'Bytes Gen_compact Bundle', 'v%d_case' % version,
+                     terms[version], 'v%d_case_ok' % version, (lambda v: (lambda i: descr[v][i]))(version)))
+    jobs.sort(key=lambda j: j[0])
+    with ThreadPoolExecutor(len(jobs)) as ex:
+        list(ex.map(lambda j: ctx.corr_check(*j, shard=3), jobs))
